@@ -4,19 +4,21 @@
 # Writes confirm.log into the seeded directory.  The scratch worktree must be a built worktree of /repo (outside /repo, /verif).
 set -u
 S=$(readlink -f "$1"); W="$2"; L="$S/confirm.log"
+# extra linker flags a demonstration needs (e.g. -Wl,--wrap=...) can be given in <seeded/id>/ldflags
+XLD=""; [ -f "$S/ldflags" ] && XLD=$(cat "$S/ldflags")
 cd "$W" || exit 2
 {
 echo "== $(date) confirm $S in $W (HEAD $(git rev-parse --short HEAD))"
 git checkout -- . && git apply "$S/patch.diff" || { echo "RESULT patch-does-not-apply"; exit 1; }
 make -j8 >/dev/null 2>&1 || { echo "RESULT patched-tree-does-not-build"; git checkout -- .; exit 1; }
-CC_LINE="gcc -O1 -I$W $S/demo.c $W/.libs/libm4ri.a -lpng -lm -fopenmp -o /tmp/demo-$$"
-$CC_LINE 2>/dev/null || gcc -O1 -I$W $S/demo.c $W/.libs/libm4ri.a -lpng -lm -o /tmp/demo-$$ || { echo "RESULT demo-does-not-compile"; git checkout -- .; exit 1; }
+CC_LINE="gcc -O1 -I$W $S/demo.c $W/.libs/libm4ri.a -lpng -lm -fopenmp $XLD -o /tmp/demo-$$"
+$CC_LINE 2>/dev/null || gcc -O1 -I$W $S/demo.c $W/.libs/libm4ri.a -lpng -lm $XLD -o /tmp/demo-$$ || { echo "RESULT demo-does-not-compile"; git checkout -- .; exit 1; }
 timeout 600 /tmp/demo-$$ >/tmp/demo-$$.out 2>&1; RC_PATCHED=$?
 echo "demo on patched tree: exit $RC_PATCHED"; tail -3 /tmp/demo-$$.out
 make -j8 check >/tmp/demo-$$.check 2>&1; grep -E "^# (PASS|FAIL|ERROR):" /tmp/demo-$$.check | tr '\n' ' '; echo
 NPASS=$(grep -E "^# PASS:" /tmp/demo-$$.check | awk '{print $3}'); NFAIL=$(grep -E "^# FAIL:" /tmp/demo-$$.check | awk '{print $3}')
 git checkout -- . && make -j8 >/dev/null 2>&1
-gcc -O1 -I$W $S/demo.c $W/.libs/libm4ri.a -lpng -lm -fopenmp -o /tmp/demo-$$ 2>/dev/null || gcc -O1 -I$W $S/demo.c $W/.libs/libm4ri.a -lpng -lm -o /tmp/demo-$$
+gcc -O1 -I$W $S/demo.c $W/.libs/libm4ri.a -lpng -lm -fopenmp $XLD -o /tmp/demo-$$ 2>/dev/null || gcc -O1 -I$W $S/demo.c $W/.libs/libm4ri.a -lpng -lm $XLD -o /tmp/demo-$$
 timeout 600 /tmp/demo-$$ >/tmp/demo-$$.out 2>&1; RC_CLEAN=$?
 echo "demo on clean tree: exit $RC_CLEAN"
 rm -f /tmp/demo-$$ /tmp/demo-$$.out /tmp/demo-$$.check
